@@ -946,7 +946,7 @@ class Terminal:
         data needs to already be a binary string matching the binary type of
         the parameter.
         """
-        if len(data) <= 4 and subindex is not None:
+        if 0 < len(data) <= 4 and subindex is not None:
             async with self.mbx_lock:
                 await self.mbx_send(
                         MBXType.COE, "HBHB4s", CoECmd.SDOREQ.value << 12,
@@ -964,45 +964,37 @@ class Terminal:
                 raise EtherCatError(f"expected CoE SDORES, got {coecmd>>12:x} "
                                     f"for {index:x}:{subindex:x}")
         else:
+            sub = 1 if subindex is None else subindex
+
+            def check(type, res):
+                if type is not MBXType.COE:
+                    raise EtherCatError(f"expected CoE, got {type}")
+                coecmd, sdocmd, idx, subidx = unpack("<HBHB", res[:6])
+                if coecmd >> 12 != CoECmd.SDORES.value:
+                    raise EtherCatError(f"expected CoE SDORES, got {coecmd>>12:x}")
+                return idx, subidx
+
             async with self.mbx_lock:
                 stop = min(len(data), self.mbx_out_sz - 16)
                 await self.mbx_send(
-                        MBXType.COE, "HBHB4x", CoECmd.SDOREQ.value << 12,
+                        MBXType.COE, "HBHBI", CoECmd.SDOREQ.value << 12,
                         ODCmd.DOWN_INIT_CA.value if subindex is None
                         else ODCmd.DOWN_INIT.value,
-                        index, 1 if subindex is None else subindex,
-                        data=data[:stop])
-                type, data = await self.mbx_recv()
-                if type is not MBXType.COE:
-                    raise EtherCatError(f"expected CoE, got {type}")
-                coecmd, sdocmd, idx, subidx = unpack("<HBHB", data[:6])
-                if coecmd >> 12 != CoECmd.SDORES.value:
-                    raise EtherCatError(f"expected CoE SDORES, got {coecmd>>12:x}")
-                if idx != index or subindex != subidx:
-                    raise EtherCatError(f"requested index {index}, got {idx}")
+                        index, sub, len(data), data=data[:stop] or None)
+                if check(*await self.sdo_recv()) != (index, sub):
+                    raise EtherCatError(f"requested index {index}")
                 toggle = 0
                 while stop < len(data):
                     start = stop
                     stop = min(len(data), start + self.mbx_out_sz - 9)
-                    if stop == len(data):
-                        if stop - start < 7:
-                            cmd = 1 + (7-stop+start << 1)
-                            d = data[start:stop] + b"\0" * (7 - stop + start)
-                        else:
-                            cmd = 1
-                            d = data[start:stop]
-                        await self.mbx_send(
-                                MBXType.COE, "HBHB4x", CoECmd.SDOREQ.value << 12,
-                                cmd + toggle, index,
-                                1 if subindex is None else subindex, data=d)
-                        type, data = await self.mbx_recv()
-                        if type is not MBXType.COE:
-                            raise EtherCatError(f"expected CoE, got {type}")
-                        coecmd, sdocmd, idx, subidx = unpack("<HBHB", data[:6])
-                        if coecmd >> 12 != CoECmd.SDORES.value:
-                            raise EtherCatError(f"expected CoE SDORES")
-                        if idx != index or subindex != subidx:
-                            raise EtherCatError(f"requested index {index}")
+                    d = data[start:stop]
+                    cmd = toggle | (stop == len(data))
+                    if len(d) < 7:
+                        cmd |= (7 - len(d)) << 1
+                        d += bytes(7 - len(d))
+                    await self.mbx_send(MBXType.COE, "HB",
+                                        CoECmd.SDOREQ.value << 12, cmd, data=d)
+                    check(*await self.sdo_recv())
                     toggle ^= 0x10
 
     async def read_object_entry(self, index, subidx):
